@@ -32,4 +32,17 @@ def run_case(c):
     out["zigzag"] = [lbls(x) for x in z]
     if snapshot(whole) != before:
         return {"crash": "iteration modified the tree"}
+    # an exhausted iterator stays exhausted; an iterator is its own iterator
+    for cls in (PreOrderIter, PostOrderIter, LevelOrderIter, LevelOrderGroupIter, ZigZagGroupIter):
+        it = cls(start, filt, stop, ml)
+        if iter(it) is not it:
+            return {"crash": "%s: iter(it) is not it" % cls.__name__}
+        first = list(it)
+        if list(it) != [] or next(it, None) is not None:
+            return {"crash": "%s yields again after it was exhausted" % cls.__name__}
+        if len(first) >= 2:
+            it = cls(start, filt, stop, ml)
+            head = next(it)
+            if [head] + list(it) != first:
+                return {"crash": "%s: partial consumption changes the result" % cls.__name__}
     return out
